@@ -669,7 +669,7 @@ MANIFEST = {
     "category": "other",
     "text": "Static decision of the non-mutation clause of show(): every temporary overwrite reachable from show is restored on all exits, every "
             "other write to object/style state lies in code reached only through the style_temp_edit(copy=True) region and targets the temporary "
-            "style (or is a triaged cache), defaults are only read; plus frame typing of the vertex placement. Does not decide the geometry of the models. Also decided by alias analysis and def-use: no in-place write on arrays held by displayed objects, a placed model is never placed again, displayed poses pair one object's position and orientation at the same indices, nested collections are flattened recursively. Round 3: the SI prefix table (D5), animation frames drawn at the path index they are labelled with (D6), the path line keeps the path order (D7), displayed path indices clamp and never wrap (D8). Rounds 4-5: placement typed in model/object/display units (D3d); in-place writes to object arrays in every display function that is handed an object (D2c).",
+            "style (or is a triaged cache), defaults are only read; plus frame typing of the vertex placement. Does not decide the geometry of the models. Also decided by alias analysis and def-use: no in-place write on arrays held by displayed objects, a placed model is never placed again, displayed poses pair one object's position and orientation at the same indices, nested collections are flattened recursively. Round 3: the SI prefix table (D5), animation frames drawn at the path index they are labelled with (D6), the path line keeps the path order (D7), displayed path indices clamp and never wrap (D8). Rounds 4-5: placement typed in model/object/display units (D3d); in-place writes to object arrays in every display function that is handed an object (D2c). Rounds 6-7: constant pose-path entries combined in one display construction are the same entry (D9), no slice of a merged coordinate array (D10), member lists built with extend / append / += reach nested members (D4; one defect repaired, d222257).",
     "design_ref": "DESIGN.md §3 C19",
     "note": "Trusted: python ast; name-based call graph; triaged TriangularMesh status caches and lazy style initialisation.",
     "technique": "static analysis: call-graph dominance (who-may-write), swap-restore typestate, frame-type abstract interpretation",
